@@ -70,8 +70,12 @@ def load_known():
         return json.load(f)['findings']
 
 
+_WORKER_HISTORY = []      # the work items this worker process has executed so far, in order: [lo, hi) index ranges
+
+
 def _worker(args):
     pid, seed, tier, lo, hi, recheck_mod = args
+    before = [list(x) for x in _WORKER_HISTORY]
     faulthandler.enable()
     faulthandler.dump_traceback_later(RUN_WATCHDOG * 15, exit=True)        # last-resort net only (30 min per work item)
     prop = load_prop(pid)
@@ -100,7 +104,8 @@ def _worker(args):
         if res.get('shape') is not None:
             shapes.add(res['shape'])
         for v in res['violations']:
-            viols.append({'index': index, 'tag': v['tag'], 'sig': v['sig'], 'detail': v.get('detail', '')})
+            viols.append({'index': index, 'tag': v['tag'], 'sig': v['sig'], 'detail': v.get('detail', ''),
+                          'process_history': before + [[lo, index]] if len(viols) < 8 else None})
         if len(samples) < 1 and res.get('nontrivial'):
             samples.append(scn)
         if recheck_mod and index % recheck_mod == 0:
@@ -113,6 +118,7 @@ def _worker(args):
             except Exception:
                 nondet += 1
     faulthandler.cancel_dump_traceback_later()
+    _WORKER_HISTORY.append([lo, hi])
     return {'n': n, 'stats': dict(stats), 'digests': digests, 'shapes': shapes, 'viols': viols[:200],
             'nviol': len(viols), 'samples': samples, 'errors': errors[:5], 'nerr': len(errors), 'nondet': nondet,
             'rechecked': rechecked, 'extent': dict(extent)}
@@ -248,7 +254,7 @@ def check(pid, tier, seed, jobs, out=print):
                        'shrink_execs': used, 'found_at': {'seed': seed, 'tier': tier, 'index': v['index']}}, f,
                       indent=1, default=_default)
         ok, log = confirm_fresh(path, k)
-        if not ok and small is not scn:
+        if not ok:
             # the minimised scenario may lean on state that earlier executions left in THIS process (a cache the change
             # under test introduced, say): fall back to the scenario as generated, which is a function of the seed alone
             res0 = prop.execute(scn)
@@ -263,9 +269,11 @@ def check(pid, tier, seed, jobs, out=print):
                 # (module-level or class-level state in the tree under test).  The replay then is the run of scenarios
                 # lo..index of this seed, in order, in one fresh process - still a pure function of the seed.
                 lo = (v['index'] // chunk) * chunk
+                # (the work items that the same worker process had executed before, then the item's own scenarios up to this one)
+                ranges = v.get('process_history') or [[lo, v['index']]]
                 with open(path, 'w') as f:
                     json.dump({'property': pid, 'violation': vv0[0], 'key': k, 'digest': None, 'scenario': scn,
-                               'prelude': {'seed': seed, 'tier': tier, 'from': lo, 'to': v['index'] - 1},
+                               'prelude': {'seed': seed, 'tier': tier, 'ranges': ranges},
                                'shrink_execs': used, 'minimised': False,
                                'found_at': {'seed': seed, 'tier': tier, 'index': v['index']}}, f, indent=1, default=_default)
                 ok, log = confirm_fresh(path, k)
@@ -366,13 +374,15 @@ def replay(path, expect=None, out=print):
     worlds.catalog()
     if rep.get('prelude'):
         pl = rep['prelude']
-        out('replaying the %d scenarios that preceded it in the same process first (indices %d..%d of seed %d)' % (
-            pl['to'] - pl['from'] + 1, pl['from'], pl['to'], pl['seed']))
-        for i in range(pl['from'], pl['to'] + 1):
-            try:
-                prop.execute(gen(prop, pl['seed'], pl['tier'], i))
-            except Exception:
-                pass
+        ranges = pl.get('ranges') or [[pl['from'], pl['to'] + 1]]
+        out('replaying the %d scenarios that the same process had executed before it (seed %d, index ranges %r)' % (
+            sum(b - a for a, b in ranges), pl['seed'], ranges if len(ranges) <= 6 else ranges[:3] + ['...'] + ranges[-2:]))
+        for a, b in ranges:
+            for i in range(a, b):
+                try:
+                    prop.execute(gen(prop, pl['seed'], pl['tier'], i))
+                except Exception:
+                    pass
     res = prop.execute(rep['scenario'])
     keys = [vkey(v) for v in res['violations']]
     known = {k['signature'] for k in load_known() if k['property'] == rep['property'] and k['status'] == 'known'}
